@@ -277,6 +277,30 @@ fn value<'t>(ctx: Context<'t>) -> Result<(Context<'t>, Expression), (Context<'t>
     Ok((ctx, Expression::new(span, kind)))
 }
 
+/// Can an expression start with this token? These are the tokens [prefix] has a rule for.
+///
+/// Where an expression is optional - the value of an enum variant, the next argument of a
+/// `'`-call - this decides whether there is one; if there is, its errors are reported.
+pub fn starts_expression(token: &T) -> bool {
+    matches!(
+        token,
+        T::Fn
+            | T::Pu
+            | T::If
+            | T::Case
+            | T::LeftParen
+            | T::LeftBracket
+            | T::Float(_)
+            | T::Int(_)
+            | T::Bool(_)
+            | T::String(_)
+            | T::Nil
+            | T::Minus
+            | T::Not
+            | T::Identifier(_)
+    )
+}
+
 /// Parse something that begins at the start of an expression.
 fn prefix<'t>(ctx: Context<'t>) -> ParseResult<'t, Expression> {
     use ExpressionKind::Get;
